@@ -9,7 +9,13 @@ for d in sorted(os.listdir("/verif/seeded")):
         continue
     m = json.load(open(f"/verif/seeded/{d}/meta.json"))
     run = m["checks_run"]
-    if "first run OK (missed)" in run or "MISSED at first" in run:
+    if "thorough: VIOLATION" in run and "quick: OK (missed" in run:
+        first = "missed in quick, thorough reports it"
+    elif "not run against the harness as it was" in run:
+        first = "dimension absent, check extended"
+    elif "reports it at once" in run:
+        first = "caught by another check"
+    elif "first run OK (missed)" in run or "MISSED at first" in run:
         first = "missed, check strengthened"
     elif "INCONCLUSIVE (" in run and "first run" in run:
         first = "inconclusive, check strengthened"
